@@ -3,7 +3,8 @@
 From Coq Require Import List NArith Bool Lia.
 From Verif Require Import Common.Util Bft.Tree Bft.Model Bft.Quorum Bft.ProofsTally Bft.ProofsChain Bft.ProofsNode
   Bft.Safety Bft.ProofsWitness Bft.ProofsFinal Bft.ProofsMonotone Bft.ProofsCommit
-  Bft.ProofsFind Bft.ProofsLive Bft.ProofsLive2 Bft.ProofsVote Bft.ProofsSuffix Bft.ProofsSafety.
+  Bft.ProofsFind Bft.ProofsLive Bft.ProofsLive2 Bft.ProofsVote Bft.ProofsSuffix Bft.ProofsSafety
+  Bft.ProofsOrder Bft.ProofsTree2 Bft.ProofsCasts Bft.ProofsRun Bft.ProofsLink Bft.ProofsGap Bft.ProofsWitness2 Bft.SchedScore.
 Import ListNotations.
 Open Scope N_scope.
 
@@ -154,7 +155,7 @@ Qed.
       Byzantine) is REFUTED in the model: the `quality >= headQuality-1` window of ShouldVote forgets an own
       conflicting vote once the head quality has moved two ahead (DESIGN §5-F4; n = 4, one Byzantine).  The witness
       needs two honest validators to move, at equal quality, to a head that does not extend their last vote
-      (f4_needs_tie_switch); whether real block production (scheduler scores) permits that is not settled, so the
+      (f4_run_outside_premise); whether real block production (scheduler scores) permits that is not settled, so the
       safety statement under the explicit fork-choice premise stays a Prop (bft_safety_under_premise): _partial. *)
 (* proved parts of the safety argument (DESIGN §4): the node invariants hold along any event history; Lemma A; Lemma B;
    the intersection half of same_quality_commit_exclusive.  What stays open: same_quality_commit_exclusive itself (the
@@ -192,20 +193,172 @@ Theorem same_quality_commit_exclusive_partial c pq1 pq2 seg1 seg2 (u byz : list 
     (exists x, In x seg2 /\ b_signer x = h) /\ (forall x, In x seg2 -> b_signer x = h -> b_com x = true).
 Proof. intros Hp. exact (double_commit_honest_voter c Hp pq1 pq2 seg1 seg2 u byz). Qed.
 
-Definition same_quality_commit_exclusive := same_quality_commit_exclusive_statement true.
+(* 4a. same_quality_commit_exclusive as first planned ("two committed epochs of equal quality have non-conflicting
+       checkpoints") is FALSE of the vote rule as coded: sibling epochs under one justified checkpoint may both be voted COM
+       by the same honest validators (each checkpoint descends from the most recent justified one) and both commit.  What is
+       safe is what they FINALIZE (4d). *)
+Theorem same_quality_commit_exclusive_refuted : ~ same_quality_commit_exclusive_statement true.
+Proof. exact same_quality_commit_exclusive_refuted_lemma. Qed.
 
+Example sibling_epochs_both_committed :
+  valid_run_b true cfg4 [4] f4_world [gen] sib_run = true /\
+  state_pure cfg4 (chain_of (seen_after [gen] sib_run) (b_id sx7)) = mkS 2 true true /\
+  state_pure cfg4 (chain_of (seen_after [gen] sib_run) (b_id sy7)) = mkS 2 true true /\
+  conflict (seen_after [gen] sib_run) (b_id sx4) (b_id sy4) = true.
+Proof. destruct sib_committed as [_ [_ [A [B [_ [_ C]]]]]]. split; [exact sib_valid | tauto]. Qed.
+
+(* 4b. invariants of every node at every moment of every valid run (any prefix `pre` of the run): the node invariants,
+       finalized is a stored checkpoint, the votes record (live, Mark-overwritten, or rebuilt by newCasts after a restart)
+       has distinct keys, no quality above the best block's and COVERS every own block at or above the finalized number
+       (casts_ok); the repository is part of the global tree; every block signed by the node's master is stored there. *)
+Theorem run_node_invariants c g byz masters pre post i nd : 0 < c_L c -> b_num g = 0 ->
+  (forall m, In m masters -> ~ In m byz) -> NoDup masters ->
+  valid_run_b true c byz (map (init_node g) masters) [g] (pre ++ post) = true ->
+  known (seen_after [g] (pre ++ post)) (b_parent g) = false ->
+  nth_error (world_after c (map (init_node g) masters) pre) i = Some nd ->
+  node_good c nd /\ incl (n_repo nd) (seen_after [g] pre) /\
+  (forall x, In x (seen_after [g] pre) -> b_signer x = e_master (n_eng nd) -> In x (n_repo nd)).
+Proof.
+  intros HL Hg Hd Hn Hv Hr Hnth.
+  destruct (world_prefix c HL g Hg byz masters Hd Hn pre post Hv Hr) as [Hw _].
+  destruct (wg_nodes c g byz masters _ _ Hw i nd Hnth) as [A [B [_ C]]]. tauto.
+Qed.
+
+(* 4c. the run-level link behind Lemma B (the fact the earlier report named as missing): when an honest validator
+       proposes a COM block b on p, every earlier own block x at or above its finalized number whose quality is inside the
+       window (quality p - 1 <= quality x) has its checkpoint on one chain with p's most recent justified checkpoint rb. *)
+Theorem later_com_vote_sees_earlier_votes c g byz masters pre i b post nd : 0 < c_L c -> b_num g = 0 ->
+  (forall m, In m masters -> ~ In m byz) -> NoDup masters ->
+  let evs := pre ++ EPropose i b :: post in
+  let tree := seen_after [g] evs in
+  valid_run_b true c byz (map (init_node g) masters) [g] evs = true -> known tree (b_parent g) = false ->
+  b_com b = true -> nth_error (world_after c (map (init_node g) masters) pre) i = Some nd ->
+  wf_repo tree /\ b_signer b = e_master (n_eng nd) /\
+  exists p rb, In p tree /\ b_id p = b_parent b /\ In b tree /\ recent_spec c tree p rb /\
+    forall x, In x (seen_after [g] pre) -> b_signer x = b_signer b -> idnum (e_fin (n_eng nd)) <= b_num x ->
+      qual c tree p - 1 <= qual c tree x ->
+      exists cpx, cp_of c tree x = Some cpx /\ comparable tree cpx rb.
+Proof. intros HL Hg Hd Hn. exact (com_vote_link_run c HL g Hg byz masters Hd Hn pre i b post nd). Qed.
+
+(* 4d. two committed epochs in one valid run, fewer than a third Byzantine (vote-count mode), under the explicit premise
+       votes_visible_b (at every honest proposal, no own vote inside the quality window lies below the proposer's finalized
+       number: the finalized filter of ShouldVote hides nothing the window would show).  B finalizing = committed store
+       point of quality > 1; y = the checkpoint CommitBlock finalizes from B (first epoch of B's chain whose store point
+       carries quality Q_B - 1).
+       (i)   if y1 and y2 conflict, an honest validator voted COM in both epochs and its later COM vote was cast on a head
+             whose quality exceeds the earlier vote's by at least two (the earlier vote had left the window);
+       (ii)  equal qualities: never conflicting (gap 0);
+       (iii) any gap: the forgotten vote is the one in the lower epoch and was cast first (a later vote in the lower epoch
+             is a closed case); gap exactly one: it was cast before its epoch was justified and the later vote was cast
+             after the other epoch was justified - the one remaining shape. *)
+Theorem conflicting_commits_need_forgotten_vote c g byz masters evs B1 B2 j1 j2 y1 y2 : 0 < c_L c -> b_num g = 0 ->
+  (forall m, In m masters -> ~ In m byz) -> NoDup masters -> c_pos c = false -> NoDup byz ->
+  3 * N.of_nat (length byz) < c_mbp c -> N.of_nat (length masters + length byz) <= c_mbp c ->
+  let tree := seen_after [g] evs in
+  valid_run_b true c byz (map (init_node g) masters) [g] evs = true -> known tree (b_parent g) = false ->
+  votes_visible_b c (map (init_node g) masters) evs = true ->
+  finalizing c tree B1 -> finalizing c tree B2 ->
+  first_epoch c tree B1 j1 -> block_at tree (b_id B1) (j1 * c_L c) = Some y1 ->
+  first_epoch c tree B2 j2 -> block_at tree (b_id B2) (j2 * c_L c) = Some y2 ->
+  conflict tree (b_id y1) (b_id y2) = true ->
+  exists x1 x2, In x1 (seg c tree B1) /\ In x2 (seg c tree B2) /\ b_signer x1 = b_signer x2 /\ ~ In (b_signer x1) byz /\
+    b_com x1 = true /\ b_com x2 = true /\
+    ((before g evs x1 x2 /\ forgotten c tree x1 x2) \/ (before g evs x2 x1 /\ forgotten c tree x2 x1)).
+Proof.
+  intros HL Hg Hd Hn Hp Hb H3 Hs. cbv zeta. intros Hv Hr Hvis.
+  exact (conflicting_commits_forgotten_vote c HL g Hg byz masters Hd Hn evs Hp Hb H3 Hs Hv Hr Hvis B1 B2 j1 j2 y1 y2).
+Qed.
+
+Theorem same_quality_commits_finalize_one_chain c g byz masters evs B1 B2 j1 j2 y1 y2 : 0 < c_L c -> b_num g = 0 ->
+  (forall m, In m masters -> ~ In m byz) -> NoDup masters -> c_pos c = false -> NoDup byz ->
+  3 * N.of_nat (length byz) < c_mbp c -> N.of_nat (length masters + length byz) <= c_mbp c ->
+  let tree := seen_after [g] evs in
+  valid_run_b true c byz (map (init_node g) masters) [g] evs = true -> known tree (b_parent g) = false ->
+  votes_visible_b c (map (init_node g) masters) evs = true ->
+  finalizing c tree B1 -> finalizing c tree B2 ->
+  first_epoch c tree B1 j1 -> block_at tree (b_id B1) (j1 * c_L c) = Some y1 ->
+  first_epoch c tree B2 j2 -> block_at tree (b_id B2) (j2 * c_L c) = Some y2 ->
+  Qof c tree B1 = Qof c tree B2 -> conflict tree (b_id y1) (b_id y2) = false.
+Proof.
+  intros HL Hg Hd Hn Hp Hb H3 Hs. cbv zeta. intros Hv Hr Hvis.
+  exact (same_quality_commits_safe c HL g Hg byz masters Hd Hn evs Hp Hb H3 Hs Hv Hr Hvis B1 B2 j1 j2 y1 y2).
+Qed.
+
+Theorem conflicting_commits_shape c g byz masters evs B1 B2 j1 j2 y1 y2 : 0 < c_L c -> b_num g = 0 ->
+  (forall m, In m masters -> ~ In m byz) -> NoDup masters -> c_pos c = false -> NoDup byz ->
+  3 * N.of_nat (length byz) < c_mbp c -> N.of_nat (length masters + length byz) <= c_mbp c ->
+  let tree := seen_after [g] evs in
+  valid_run_b true c byz (map (init_node g) masters) [g] evs = true -> known tree (b_parent g) = false ->
+  votes_visible_b c (map (init_node g) masters) evs = true ->
+  finalizing c tree B1 -> finalizing c tree B2 ->
+  first_epoch c tree B1 j1 -> block_at tree (b_id B1) (j1 * c_L c) = Some y1 ->
+  first_epoch c tree B2 j2 -> block_at tree (b_id B2) (j2 * c_L c) = Some y2 ->
+  conflict tree (b_id y1) (b_id y2) = true -> Qof c tree B1 <= Qof c tree B2 ->
+  exists x1 x2 p2, In x1 (seg c tree B1) /\ In x2 (seg c tree B2) /\ b_signer x1 = b_signer x2 /\ ~ In (b_signer x1) byz /\
+    b_com x1 = true /\ b_com x2 = true /\ before g evs x1 x2 /\
+    In p2 tree /\ b_id p2 = b_parent x2 /\ qual c tree x1 + 2 <= qual c tree p2 /\
+    (Qof c tree B2 = Qof c tree B1 + 1 -> qual c tree x1 = Qof c tree B1 - 1 /\ qual c tree p2 = Qof c tree B2).
+Proof.
+  intros HL Hg Hd Hn Hp Hb H3 Hs. cbv zeta. intros Hv Hr Hvis.
+  exact (Verif.Bft.ProofsGap.conflicting_commits_shape c HL g Hg byz masters Hd Hn evs Hp Hb H3 Hs Hv Hr Hvis B1 B2 j1 j2 y1 y2).
+Qed.
+
+(* non-vacuity: the sibling run satisfies every hypothesis of (ii) (two committed epochs of quality 2, both finalize
+   genesis); the F4 run satisfies every hypothesis of (i)/(iii) including the conflict (4X from 11X of quality 3, 12Y from
+   19Y of quality 5: gap two) *)
+Example same_quality_instance :
+  let t := seen_after [gen] sib_run in
+  valid_run_b true cfg4 [4] f4_world [gen] sib_run = true /\ known t (b_parent gen) = false /\
+  votes_visible_b cfg4 f4_world sib_run = true /\
+  finalizing cfg4 t sx7 /\ finalizing cfg4 t sy7 /\ Qof cfg4 t sx7 = Qof cfg4 t sy7 /\
+  first_epoch cfg4 t sx7 0 /\ block_at t (b_id sx7) (0 * 4) = Some gen /\
+  first_epoch cfg4 t sy7 0 /\ block_at t (b_id sy7) (0 * 4) = Some gen.
+Proof. cbv zeta. split; [exact sib_valid|]. split; [exact sib_root|]. split; [exact sib_visible | exact sib_gap0_instance]. Qed.
+
+Example f4_is_the_open_shape :
+  let t := seen_after [gen] f4_run in
+  valid_run_b true cfg4 [4] f4_world [gen] f4_run = true /\ known t (b_parent gen) = false /\
+  votes_visible_b cfg4 f4_world f4_run = true /\
+  finalizing cfg4 t x11 /\ finalizing cfg4 t y19 /\ Qof cfg4 t x11 = 3 /\ Qof cfg4 t y19 = 5 /\
+  first_epoch cfg4 t x11 1 /\ block_at t (b_id x11) (1 * 4) = Some x4 /\
+  first_epoch cfg4 t y19 3 /\ block_at t (b_id y19) (3 * 4) = Some y12 /\
+  conflict t (b_id x4) (b_id y12) = true.
+Proof.
+  cbv zeta. split; [exact (f4_valid true)|]. split; [exact f4_root|]. split; [exact f4_visible|].
+  destruct f4_gap_instance as [A [B [C [D [E [F [G H]]]]]]]. repeat (split; [assumption|]). exact f4_conflict.
+Qed.
+
+(* 4e. general safety.  Without a fork-choice premise the statement over all valid runs is REFUTED in the model (F4) - also
+       when every block's total score obeys the PoA scheduler's score rule (scheduler/poa_v2.go: candidates = active
+       validators + signer sorted by a hash that is data of the run; increment = n - pos, or 1 after a full round;
+       f4s_run).  The F4 runs lie outside the premise "no equal-quality move off the last own vote"; safety under that
+       premise stays a Prop (bft_safety_under_premise): what is left is the shape (iii) above plus discharging
+       votes_visible_b. *)
 Definition bft_safety_without_premise := bft_safety_statement true.
 Definition bft_safety_under_premise := bft_safety_under_premise_statement true.
 
 Theorem bft_safety_without_premise_refuted : ~ bft_safety_statement true.
 Proof. exact (bft_safety_refuted_lemma true). Qed.
 
-Theorem f4_needs_tie_switch : valid_run_b true cfg4 [4] f4_world [gen] f4_run = true /\ no_tie_switch_b true cfg4 f4_world f4_run = false.
+Theorem f4_run_outside_premise : valid_run_b true cfg4 [4] f4_world [gen] f4_run = true /\ no_tie_switch_b true cfg4 f4_world f4_run = false.
 Proof. split; [exact (f4_valid true) | exact (f4_breaks_premise true)]. Qed.
 
 Example f4_end_state : In (b_id x4) (all_fins true cfg4 f4_world f4_run) /\ In (b_id y12) (all_fins true cfg4 f4_world f4_run) /\
                        conflict (seen_after [gen] f4_run) (b_id x4) (b_id y12) = true.
 Proof. destruct (f4_fins true) as [A B]. split; [exact A | split; [exact B | exact f4_conflict]]. Qed.
+
+(* the same history with scheduler-conformant scores: valid, every score obeys the rule, honest validators still make the
+   two equal-quality moves (Select prefers the higher total score), two honest nodes finalize conflicting checkpoints *)
+Theorem safety_fails_with_scheduler_scores :
+  valid_run_b true cfg4 [4] f4_world [gen] f4s_run = true /\
+  scores_ok f4_rank [1;2;3;4] (seen_after [gen] f4s_run) = true /\
+  no_tie_switch_b true cfg4 f4_world f4s_run = false /\
+  In (b_id x4) (all_fins true cfg4 f4_world f4s_run) /\ In (b_id sy12') (all_fins true cfg4 f4_world f4s_run) /\
+  conflict (seen_after [gen] f4s_run) (b_id x4) (b_id sy12') = true.
+Proof.
+  split; [exact f4s_valid|]. split; [exact f4s_scores|]. split; [exact f4s_breaks_premise|].
+  destruct f4s_fins as [A B]. split; [exact A|]. split; [exact B | exact f4s_conflict].
+Qed.
 
 Print Assumptions quorum_intersection_count.
 Print Assumptions quorum_honest_count.
@@ -227,5 +380,12 @@ Print Assumptions node_invariants_along_events.
 Print Assumptions lemma_A_head_quality_monotone.
 Print Assumptions lemma_B_com_lock.
 Print Assumptions same_quality_commit_exclusive_partial.
+Print Assumptions same_quality_commit_exclusive_refuted.
+Print Assumptions run_node_invariants.
+Print Assumptions later_com_vote_sees_earlier_votes.
+Print Assumptions conflicting_commits_need_forgotten_vote.
+Print Assumptions same_quality_commits_finalize_one_chain.
+Print Assumptions conflicting_commits_shape.
 Print Assumptions bft_safety_without_premise_refuted.
-Print Assumptions f4_needs_tie_switch.
+Print Assumptions f4_run_outside_premise.
+Print Assumptions safety_fails_with_scheduler_scores.
